@@ -56,6 +56,32 @@ def rule_eqhash1(ctx: Ctx) -> RuleResult:
               f"`{norm(bad)[:60] if bad is not None else '__hash__'}` computes a digest in which different objects coincide (e.g. the "
               f"indexes 1B and 2A have the same character sum): together with structural equality two distinct models become one "
               f"set element and one of them drops out of its merge group", f.node.lineno)
+        # what the hash is computed from never changes after construction (the object sits in sets / is a dict key meanwhile)
+        read = sorted({x.attr for x in walk_no_nested(f.node) if isinstance(x, ast.Attribute) and norm(x.value) == "self"
+                       and isinstance(x.ctx, ast.Load) and x.attr not in c.methods})
+        related = set(prog.mro(c)) | set(prog.subclasses(c))
+        for a in read:
+            writers = []
+            for k in related:
+                for ms in k.methods.values():
+                    for g in ms:
+                        if g.name == "__init__":
+                            continue
+                        for x in walk_no_nested(g.node):
+                            tg = []
+                            if isinstance(x, ast.Assign):
+                                tg = x.targets
+                            elif isinstance(x, (ast.AugAssign, ast.AnnAssign)):
+                                tg = [x.target]
+                            if any(isinstance(t, ast.Attribute) and norm(t.value) == "self" and t.attr == a for t in tg):
+                                writers.append((g, x))
+            rr.instances += 1
+            rr.ob(f.relpath, f.qualname, f"self.{a}", f"the hash of a {c.name} depends only on what is fixed when the object is built: a "
+                  f"dict keyed by such objects (the path map of the nested layout) finds them again after they were renamed",
+                  VIOLATED if writers else DISCHARGED,
+                  f"`self.{a}` is assigned in {writers[0][0].qualname} (line {writers[0][1].lineno}): after that the object is no longer "
+                  f"found under its old hash - the first rendering renames the model, a second rendering misses its entry" if writers else
+                  "assigned in __init__ only", f.node.lineno)
     if n < 2:
         raise AnalysisError(f"EQHASH-1: only {n} __hash__ implementations found")
     return rr
@@ -766,9 +792,59 @@ def rule_cacheinv1(ctx: Ctx) -> RuleResult:
                               "view dropped" if resets else
                               f"`{norm(muts[0])[:40]}` changes the source but `self.{cache}` is kept: later lookups answer from the old "
                               f"content (a type registered afterwards is detected but is not `in` the registry)", muts[0].lineno)
+        # second form: a memo table `self.X = {}` filled and consulted by one method (self.X[k] = v / self.X.get(k) / k in self.X)
+        dict_attrs = {t.attr for n in walk_no_nested(inits[0].node) if isinstance(n, (ast.Assign, ast.AnnAssign)) and getattr(n, "value", None) is not None
+                      and (isinstance(n.value, ast.Dict) and not n.value.keys or isinstance(n.value, ast.Call) and norm(n.value.func) in
+                           ("dict", "OrderedDict", "collections.OrderedDict", "defaultdict", "collections.defaultdict", "WeakKeyDictionary"))
+                      for t in (n.targets if isinstance(n, ast.Assign) else [n.target])
+                      if isinstance(t, ast.Attribute) and isinstance(t.value, ast.Name) and t.value.id == "self"}
+        for ms in c.methods.values():
+            for f in ms:
+                if f.name == "__init__":
+                    continue
+                for memo in sorted(dict_attrs):
+                    stores = [x for x in walk_no_nested(f.node) if isinstance(x, ast.Assign) and isinstance(x.targets[0], ast.Subscript)
+                              and norm(x.targets[0].value) == f"self.{memo}"]
+                    reads = [x for x in walk_no_nested(f.node) if (isinstance(x, ast.Call) and norm(x.func) == f"self.{memo}.get") or
+                             (isinstance(x, ast.Compare) and isinstance(x.ops[0], (ast.In, ast.NotIn)) and norm(x.comparators[0]) == f"self.{memo}")
+                             or (isinstance(x, ast.Subscript) and isinstance(x.ctx, ast.Load) and norm(x.value) == f"self.{memo}")]
+                    if not (stores and reads):
+                        continue
+                    sources = {x.attr for x in walk_no_nested(f.node) if isinstance(x, ast.Attribute) and norm(x.value) == "self"
+                               and x.attr != memo and isinstance(x.ctx, ast.Load) and x.attr not in c.methods}
+                    if not sources:
+                        continue
+                    n_caches += 1
+                    for g in [h for h in c.module.all_funcs if h.cls is c or (h.parent is not None and ctx.effects._owner(h) is c)]:
+                        if g.name == "__init__" or g is f:
+                            continue
+                        muts = []
+                        for x in walk_no_nested(g.node):
+                            if isinstance(x, ast.Call) and isinstance(x.func, ast.Attribute) and x.func.attr in MUTATORS and \
+                                    isinstance(x.func.value, ast.Attribute) and norm(x.func.value.value) == "self" and x.func.value.attr in sources:
+                                muts.append(x)
+                            if isinstance(x, (ast.Assign, ast.AugAssign)):
+                                for t in (x.targets if isinstance(x, ast.Assign) else [x.target]):
+                                    if isinstance(t, ast.Attribute) and norm(t.value) == "self" and t.attr in sources:
+                                        muts.append(x)
+                        if not muts:
+                            continue
+                        rr.instances += 1
+                        top = g
+                        while top.parent is not None:
+                            top = top.parent
+                        resets = any((isinstance(x, ast.Call) and norm(x.func) == f"self.{memo}.clear") or
+                                     (isinstance(x, ast.Assign) and norm(x.targets[0]) == f"self.{memo}")
+                                     for h in (g, top) for x in ast.walk(h.node))
+                        rr.ob(g.relpath, g.qualname, norm(muts[0])[:60], f"`self.{memo}` of {c.name} remembers answers computed from "
+                              f"{sorted(sources)}: a method that changes them empties the table",
+                              DISCHARGED if resets else VIOLATED,
+                              "table emptied" if resets else
+                              f"`{norm(muts[0])[:40]}` changes what the remembered answers were computed from, and `self.{memo}` is kept: the "
+                              f"same question asked again gets the answer of the old state, unlike a new {c.name} in the same state", muts[0].lineno)
     rr.instances += 1
     rr.ob("json_to_models", "<package>", "lazily built views", "cached views are invalidated", DISCHARGED,
-          f"{n_caches} lazily built view(s) found", 1)
+          f"{n_caches} lazily built view(s) / memo table(s) found", 1)
     return rr
 
 
